@@ -151,6 +151,40 @@ def job(item):
                         out["records"].append({"kind": "violation", "key": f"{pid}|{sname}|E({g})|envelope", "tag": tag,
                                                "what": f"E({g}) at n={k} under {sname} deviates by {d:.3g} from the exact value {y} (eps = {eps})", "replay": {"text": text, "goal": g, "setting": sname, "n": k}})
                         break
+            # the aggregated flag of the goal kinds built from several raw moments (cumulants, central moments, tail bounds):
+            # cli.common.get_all_moments must report "rounded" as soon as one of the moments it returns is rounded
+            try:
+                from argparse import Namespace
+                from symengine import sympify as se
+                from recurrences import RecBuilder
+                from cli.common import get_all_moments
+                g0 = next((g for g in good if g.isidentifier()), None)
+                if g0 is not None and res.get("program") is not None and ref.get("program") is not None:
+                    polar_iface.set_settings(**opts)
+                    with polar_iface.time_limit(item.get("goal_timeout", 40)):
+                        ms, flag = get_all_moments(se(g0), 2, {}, RecBuilder(res["program"]), Namespace(solvability_check=False), res["program"])
+                    polar_iface.set_settings()
+                    with polar_iface.time_limit(item.get("goal_timeout", 40)):
+                        ms0, _ = get_all_moments(se(g0), 2, {}, RecBuilder(ref["program"]), Namespace(solvability_check=False), ref["program"])
+                    if flag:
+                        for i in (1, 2):
+                            for k in range(13):
+                                x = complex(sp.N(at_n(sp.sympify(ms[i]), k), 40))
+                                y = complex(sp.N(at_n(sp.sympify(ms0[i]), k), 40))
+                                out["checked"] += 1
+                                if abs(x - y) > 1e-25 * (1 + abs(y)):
+                                    out["records"].append({"kind": "violation", "key": f"{pid}|{sname}|moments({g0})|flag", "tag": f"{pid}:{sname}:moments({g0})",
+                                                           "what": f"get_all_moments({g0}, 2) under {sname}: E({g0}**{i}) at n={k} is {x}, exact {y}, but the moments are flagged exact (cumulant / central / tail-bound goals print 'Solution is exact')",
+                                                           "replay": {"text": text, "goal": g0, "setting": sname, "n": k}})
+                                    raise StopIteration
+            except StopIteration:
+                pass
+            except polar_iface.JobTimeout:
+                pass
+            except Exception as e:  # noqa
+                out["records"].append({"kind": "inconclusive", "tag": f"{pid}:{sname}:moments", "why": f"{type(e).__name__}: {e}"[:140]})
+            finally:
+                polar_iface.set_settings()
     return out
 
 
